@@ -664,7 +664,6 @@ def small_scope_chunked(ctx, ux):
     conns = [tri["conn"], [[0, 1, 2, INT_FILL], [0, 2, 3, INT_FILL]]]
     fmts = [dict(via="topology"), dict(via="dataset", spec="UGRID")]
     if ctx.thorough or ctx.escalate:
-        lons.append([NAN] + tri["lon"][1:])
         conns.append([[0, 1, 2, 3], [0, 2, 3, 1]])
         fmts.append(dict(via="ugrid"))
     for arrangement in (("same-chunks", "own-chunks", "mixed") if (ctx.thorough or ctx.escalate) else ("same-chunks", "mixed")):
@@ -846,7 +845,7 @@ def run(ctx):
                     judge_copy(ctx, ux, r[0], r[1], da, m.kind + "+nan")
     # 3b. the same questions in every backing state a public call can put the grids in
     small_scope_chunked(ctx, ux)
-    for mi, m in enumerate(ms[:: ctx.n(2, 1)]):
+    for mi, m in enumerate(ms[:: ctx.n(2, 4)]):
         A = base_from_mesh(rng, m)
         for kind, da, db in backing_pairs(rng, A, thorough):
             r = run_pair(ctx, ux, kind, da, db)
